@@ -295,3 +295,7 @@ func WithTimeout(parent context.Context, d time.Duration) (context.Context, cont
 	tm := S.addTimer(d, "ctx.timeout", func() { c.cancel(context.DeadlineExceeded) })
 	return c, func() { point("ctx.cancel", always); stopTimer(tm); c.cancel(context.Canceled) }
 }
+
+// AddTimer registers a virtual timer for harness fakes (e.g. "the peer answers what it still holds once
+// everybody is blocked"): f runs when the timer fires, attributed to the clock.
+func AddTimer(d time.Duration, name string, f func()) { S.addTimer(d, name, f) }
